@@ -273,7 +273,7 @@ def judge_arrays(c, rec):
 # ------------------------------------------------------------------ hourly fits
 @st.composite
 def hourly_cases(draw):
-    return {"kind": "hourly", "seed": draw(st.integers(0, 2 ** 31 - 1)), "tz": draw(st.sampled_from(["America/Chicago", "UTC", "Europe/London"])),
+    return {"solver": draw(st.sampled_from(["default", "default", "adaptive"])), "kind": "hourly", "seed": draw(st.integers(0, 2 ** 31 - 1)), "tz": draw(st.sampled_from(["America/Chicago", "UTC", "Europe/London"])),
             "days": draw(st.integers(112, 150)), "noise": draw(st.sampled_from([0.05, 0.3, 1.0, 3.0])), "ghi": draw(st.booleans()),
             "gaps": draw(st.lists(st.integers(0, 112 * 24 - 1), max_size=20)),
             "shape": draw(st.sampled_from(["normal", "normal", "net_negative", "flat"])),  # an undefined CVRMSE / PNRMSE
@@ -295,7 +295,10 @@ def judge_hourly(c, rec):
         if g < len(df):
             df.iloc[g, df.columns.get_loc("observed")] = np.nan
     data = em.HourlyBaselineData(df, is_electricity_data=False)
-    m0 = em.HourlyModel(settings={"seed": 1}).fit(data, ignore_disqualification=True)
+    base_settings = {"seed": 1}
+    if c.get("solver") == "adaptive":  # the other solver path (iteratively re-weighted elastic net)
+        base_settings["elasticnet"] = {"adaptive_weights": True, "adaptive_weight_max_iter": 3, "adaptive_weight_tol": 1e-2}
+    m0 = em.HourlyModel(settings=dict(base_settings)).fit(data, ignore_disqualification=True)
     bm = m0.baseline_metrics
     cv, pn = bm.cvrmse_adj, bm.pnrmse_adj
 
@@ -306,7 +309,7 @@ def judge_hourly(c, rec):
 
     tc, tp = thr(cv, c["side"][0]), thr(pn, c["side"][1])
     data = em.HourlyBaselineData(df, is_electricity_data=False)
-    m = em.HourlyModel(settings={"seed": 1, "cvrmse_threshold": tc, "pnrmse_threshold": tp}).fit(data, ignore_disqualification=True)
+    m = em.HourlyModel(settings=dict(base_settings, cvrmse_threshold=tc, pnrmse_threshold=tp)).fit(data, ignore_disqualification=True)
     b2 = m.baseline_metrics
     if (b2.cvrmse_adj, b2.pnrmse_adj) != (cv, pn):
         rec.violation("hourly/thresholds-influence-fit", c, "ratios changed with the thresholds: %r -> %r" % ((cv, pn), (b2.cvrmse_adj, b2.pnrmse_adj)))
@@ -332,7 +335,7 @@ def judge_hourly(c, rec):
     dq = any(w.qualified_name == "eemeter.model_fit_metrics" for w in m.disqualification)
     if dq != (miss_c and miss_p):
         rec.violation("hourly/gate", c, "poor-fit disqualification=%s but cvrmse_adj=%r (threshold %r), pnrmse_adj=%r (threshold %r)" % (dq, cv, tc, pn, tp))
-    rec.case(c, True, ["sub=hourly", "dq=%d" % dq, "sides=%s" % "-".join(c["side"]), "cv_none=%d" % (cv is None), "pn_none=%d" % (pn is None)])
+    rec.case(c, True, ["sub=hourly", "solver=" + c.get("solver", "default"), "dq=%d" % dq, "sides=%s" % "-".join(c["side"]), "cv_none=%d" % (cv is None), "pn_none=%d" % (pn is None)])
 
 
 # ------------------------------------------------------------------ daily / billing fits
